@@ -338,6 +338,13 @@ pub fn run(ctx: &Ctx) -> Report {
                 let d = format!("[{},{},{}]", regs, bb, bhs);
                 try_doc(&d, false, rep, "sequence form with invalid b / length");
             }
+            // ... including b outside 4..=18 with exactly 2^b registers (self-consistent but invalid)
+            for bb in [0usize, 1, 2, 3, 19, 20] {
+                let d = format!("[{},{},{}]", regs_json(1 << bb, 1), bb, bhs);
+                try_doc(&d, false, rep, "sequence form with b outside 4..=18 and 2^b registers");
+                let d = format!("[{},{},{}]", bb, regs_json(1 << bb, 1), bhs);
+                try_doc(&d, false, rep, "sequence form (b first) with b outside 4..=18 and 2^b registers");
+            }
             let good = doc(&good_regs, &json!(b), &bh);
             for cut in [1usize, good.len() / 2, good.len() - 1, good.len() - 2] {
                 try_doc(&good[..cut], false, rep, "truncated text");
